@@ -798,3 +798,165 @@ def std_xchg_layout(progs):
                 TXT = {'E': 'without a block', 'L': 'with a block'}
                 rr.add(Finding('XCHG-STD', f['key'], f['loc'], '%s with this vector %s and the other %s: %s' % (nm, TXT[sa], TXT[sb], msg), where=f['pname'], unit=prog.uname))
     return rr
+
+
+# ------------------------------------------------------------------------------------------------ swap2_impl between two SmallVectors
+
+NA_, NB_ = {'NA': 1}, {'NB': 1}
+
+
+class X2Interp(XInterp):
+    """XInterp for two SmallVectors with different inline capacities; swap_sizetype exchanges the caller's locals."""
+
+    def call(self, n, fr):
+        nm, sn, args = A.callee(n), A.cshort(n), n.get('args', []) or []
+        if sn == 'swap_sizetype' and len(args) == 2:
+            ka, kb = self.key(args[0]), self.key(args[1])
+            if ka is None or kb is None:
+                raise Unknown('swap_sizetype on something else than two locals')
+            va, vb = fr.env.get(ka, TOP), fr.env.get(kb, TOP)
+            if va[0] != 'int' or vb[0] != 'int':
+                raise Unknown('swap_sizetype on values the interpreter does not follow')
+            fr.env[ka], fr.env[kb] = vb, va           # the range test throws before anything is modified (THROW-FIRST, THROW-TYPE)
+            return TOP
+        if n.get('method') and n.get('obj') is not None:
+            ov = self.ev(n['obj'], fr)
+            if ov[0] == 'stor' and sn in ('dyn', 'setDyn'):
+                # the per-object inline capacity
+                o = self.m.objs[ov[1]]
+                save = dict(NN_)
+                NN_.clear()
+                NN_.update(o['N'])
+                try:
+                    return XInterp.call(self, n, fr)
+                finally:
+                    NN_.clear()
+                    NN_.update(save)
+        return XInterp.call(self, n, fr)
+
+
+def swap2_layout(progs):
+    rr = RuleResult('SWAP2-LAYOUT', 'swap2_impl between two SmallVectors (any inline capacities, after the mutual capacity adjustment), for every pair of states: each vector '
+                                    'ends - decoded from its own words and union - with the size and the elements of the other, in order, a valid inline encoding or a '
+                                    'block whose capacity its `_capa` holds, nothing else alive, every heap block owned by exactly one of them')
+    seen = set()
+    for prog in progs:
+        E = prog.meta.get('E')
+        if not E:
+            continue
+        for f in prog.amc_functions():
+            ps = f.get('params', [])
+            if f.get('body') is None or short(f.get('name', '')) != 'swap2_impl' or f.get('clsq') != 'amc::vec::DynamicVector' or len(ps) != 1:
+                continue
+            # both sides SmallVectors (WithInlineElements = true)
+            if not (f['pname'].split('::swap2_impl')[0].rstrip('>').rstrip().endswith('true') and 'DynamicVector<' in ps[0]['t'] and ps[0]['t'].replace('&', '').strip().rstrip('>').rstrip().endswith('true')):
+                continue
+            bad, total, broken = None, 0, None
+            gap = ladd(ladd(ladd(ladd(NA_, NB_), ladd(KA, KB)), ladd(CA, CB)), lconst(1))
+            base = [dict(CA), dict(CB), dict(KA), dict(KB), ladd(NA_, lconst(-1)), ladd(NB_, lconst(-1)), ladd(MAX_, ladd(NA_, lconst(1)), -1), ladd(MAX_, ladd(NB_, lconst(1)), -1),
+                    ladd(MAX_, KA, -1), ladd(MAX_, KB, -1), ladd(IB, gap, -1), ladd(HA, ladd(IB, gap), -1), ladd(HB, ladd(HA, gap), -1)]
+
+            def st(s_, C, K, N):
+                if s_ == 'S':
+                    return [ladd(ladd(N, C, -1), lconst(-1))], {'_capa': dict(C), '_size': dict(N)}, N
+                if s_ == 'F':
+                    return [ladd(C, N, -1), ladd(N, C, -1)], {'_capa': dict(C), '_size': dict(MAX_)}, N
+                return [ladd(K, C, -1)], {'_capa': dict(K), '_size': dict(C)}, K
+            for sa in ('S', 'F', 'L'):
+                for sb in ('S', 'F', 'L'):
+                    ca, wa, capa_a = st(sa, CA, KA, NA_)
+                    cb, wb, capa_b = st(sb, CB, KB, NB_)
+                    # adjustEachOtherCapacity ran: each capacity holds the other's size
+                    cons = base + ca + cb + [ladd(capa_a, CB, -1), ladd(capa_b, CA, -1)]
+                    if not S.sat(cons):
+                        continue
+                    stack = [[]]
+                    try:
+                        while stack:
+                            trail = stack.pop()
+                            m = S.Machine(prog, f, E, trail)
+                            m.cons = [dict(c) for c in cons]
+                            m.size = {}
+                            segs = [((dict(IA), ladd(IA, CA)) if sa != 'L' else (dict(HA), ladd(HA, CA))), ((dict(IB), ladd(IB, CB)) if sb != 'L' else (dict(HB), ladd(HB, CB)))]
+                            segs.sort(key=lambda x: (('IB' in x[0]) * 1 + ('HA' in x[0]) * 2 + ('HB' in x[0]) * 3))
+                            bounds, cont = [{}], [RAW]
+                            for lo, hi in segs:
+                                if lo:
+                                    bounds += [dict(lo), dict(hi)]
+                                    cont += [S.old(), RAW]
+                                else:
+                                    bounds, cont = [{}, dict(hi)], [S.old(), RAW]
+                            m.bounds, m.cont = bounds, cont
+                            m.objs = {'this': {'words': {k: dict(v) for k, v in wa.items()}, 'ptr': ('ptr', dict(HA)) if sa == 'L' else None, 'inline': dict(IA), 'N': dict(NA_)},
+                                      'other': {'words': {k: dict(v) for k, v in wb.items()}, 'ptr': ('ptr', dict(HB)) if sb == 'L' else None, 'inline': dict(IB), 'N': dict(NB_)}}
+                            m.deallocs = []
+                            fr = S.Frame(f)
+                            fr.this_obj = 'this'
+                            fr.env[('p', 0)] = ('obj', 'other')
+                            ip = X2Interp(m)
+                            try:
+                                try:
+                                    ip.run(f['body'], fr)
+                                except S._Ret:
+                                    pass
+                                except S._Thrown:
+                                    raise Infeasible()
+                                origin = {'this': (dict(IA) if sa != 'L' else dict(HA), CA), 'other': (dict(IB) if sb != 'L' else dict(HB), CB)}
+                                covered = []
+                                for name, src in (('this', 'other'), ('other', 'this')):
+                                    state, size, sbase, capa = decode(m, name)
+                                    obase, osize = origin[src]
+                                    if not m.entails_eq(size, osize):
+                                        raise Violation('`%s` ends with size %s; expected the size of the vector it exchanges with (%s)' % (name, fmt(size), fmt(osize)), None)
+                                    Nx = m.objs[name]['N']
+                                    if state == 'small':
+                                        full = m.compare(size, Nx) == 0
+                                        if m.compare(size, Nx) > 0:
+                                            raise Violation('`%s` ends inline with more elements (%s) than its inline capacity' % (name, fmt(size)), None)
+                                        if not m.entails_eq(m.objs[name]['words']['_size'], MAX_ if full else Nx):
+                                            raise Violation('`%s` ends inline with `_size` = %s; expected %s' % (name, fmt(m.objs[name]['words']['_size']), 'the full marker' if full else 'its inline capacity'), None)
+                                    for a, b, got in m.pieces(sbase, ladd(sbase, size)):
+                                        if not S.same_content(m, got, S.old(ladd(sbase, obase, -1))):
+                                            raise Violation('on return slots [%s, %s) of `%s` hold %s; expected the elements of the other vector, in order' % (fmt(a), fmt(b), name, S.cfmt(got)), None)
+                                    covered.append((dict(sbase), ladd(sbase, size)))
+                                for a, b, got in m.pieces({}, None):
+                                    if not S.alive(got) or m.trivial:
+                                        continue
+                                    if any(m.compare(a, lo) >= 0 and (b is not None and m.compare(b, hi) <= 0) for lo, hi in covered):
+                                        continue
+                                    raise Violation('on return slots [%s, %s) still hold objects (%s) that belong to neither vector' % (fmt(a), fmt(b), S.cfmt(got)), None)
+                                for blk, cap, had in ((HA, KA, sa == 'L'), (HB, KB, sb == 'L')):
+                                    if not had:
+                                        continue
+                                    owners = [x for x in ('this', 'other') if decode(m, x)[0] == 'large' and m.entails_eq(m.objs[x]['ptr'][1], blk)]
+                                    if len(owners) != 1 or m.deallocs:
+                                        raise Violation('a heap block is owned by %d vector(s) after the exchange (and %d block(s) were given back); expected exactly one owner' % (len(owners), len(m.deallocs)), None)
+                                    if not m.entails_eq(m.objs[owners[0]]['words']['_capa'], cap):
+                                        raise Violation('`%s` owns a block of capacity %s but its `_capa` is %s' % (owners[0], fmt(cap), fmt(m.objs[owners[0]]['words']['_capa'])), None)
+                                total += 1
+                            except Split as sp:
+                                for i in range(sp.k):
+                                    stack.append(trail + [i])
+                            except Infeasible:
+                                pass
+                            except Violation as v:
+                                bad = (str(v), sa, sb, [short(x['name']) for x in m.frames])
+                                stack = []
+                            if total + len(stack) > 800:
+                                raise Unknown('too many paths')
+                    except Unknown as e:
+                        broken = 'SWAP2-LAYOUT: cannot interpret %s (this %s, other %s): %s' % (f['pname'][:90], sa, sb, e)
+                    if bad or broken:
+                        break
+                if bad or broken:
+                    break
+            if broken:
+                rr.broken = rr.broken or broken
+                continue
+            rr.instance('%s|%s' % (f['key'], prog.uname), {'function': f['pname'][:160], 'paths': total, 'verdict': 'violated' if bad else 'contents exchanged, encodings valid, blocks owned once'})
+            if bad and f['key'] not in seen:
+                seen.add(f['key'])
+                msg, sa, sb, where = bad
+                rr.add(Finding('SWAP2-LAYOUT', f['key'], f['loc'], 'swap2_impl with this vector %s and the other %s%s: %s' % (STATE_TXT[sa], STATE_TXT[sb], (' (in ' + ' > '.join(where) + ')') if where else '', msg),
+                               where=f['pname'], unit=prog.uname))
+    return rr
